@@ -19,3 +19,13 @@ Theorem C12_arguments_read_back : forall args, map inls_text (map (fun a => arg_
 Proof. exact C12_args_text. Qed.
 Print Assumptions C12_first_block_partial.
 Print Assumptions C12_arguments_read_back.
+
+(* whole documents: macro lines (name and arguments printed by the manual's rules, one line each) one after the other
+   are read back block for block, each with its arguments and its line number, and nothing else - for every fuel large
+   enough (the example shows the fuel [parse] takes is).  Proofs/ScanDoc.v. *)
+Require ScanDoc.
+Theorem C12_document_read_back : forall ls, Forall ScanDoc.wf_line ls -> ls <> [] ->
+  exists k, forall f,
+    parse_blocks (count_nl (ScanDoc.print_doc ls)) (k + f) (p_scan (init_sc (ScanDoc.print_doc ls))) [] = (ScanDoc.blocks_from 1 ls, None).
+Proof. exact ScanDoc.C12_document. Qed.
+Print Assumptions C12_document_read_back.
